@@ -60,8 +60,9 @@ def make_res_zips(work, ind):
 
 # ------------------------------------------------------------------ scenarios
 class Scenario:
-    def __init__(self, name, plot, run, confirm_switch=True):
+    def __init__(self, name, plot, run, confirm_switch=True, collision=False):
         self.name, self.plot, self.run, self.confirm_switch = name, plot, run, confirm_switch
+        self.collision = collision  # two outputs of one command share a target path
 
 
 OUT_OPTS = ("--save_results", "--save_plot", "--serialize_plot", "--save_table", "-o", "--out")
@@ -94,13 +95,13 @@ def respell(argv, spelling, outdir):
     return out
 
 
-def cli_scenario(name, tool, argv_fn, plot=False, confirm_switch=True):
+def cli_scenario(name, tool, argv_fn, plot=False, confirm_switch=True, collision=False):
     def run(outdir, ctx, answers, no_warnings):
         argv = respell(argv_fn(ctx), ctx.get("spelling"), outdir)
         if no_warnings:
             argv = argv + ["--no_warnings"]
         return cli.run_cli(tool, argv, cwd=outdir, answers=answers)
-    return Scenario(name, plot, run, confirm_switch)
+    return Scenario(name, plot, run, confirm_switch, collision)
 
 
 def writer_scenario(name, fn, plot=False):
@@ -141,6 +142,12 @@ def scenarios():
         S.append(cli_scenario("evo_%s all outputs" % tool, tool,
                               lambda c: ["tum", ref(c), est(c), "--save_results", "r.zip", "--save_plot", "p.png",
                                          "--serialize_plot", "s.pkl"], plot=True))
+    for tool in ("ape", "rpe"):
+        # one target named for two outputs: the second writer finds a file that the first one has
+        # just created - it exists, so it is asked about
+        S.append(cli_scenario("evo_%s --serialize_plot X --save_results X" % tool, tool,
+                              lambda c: ["tum", ref(c), est(c), "--serialize_plot", "x.out", "--save_results", "x.out"],
+                              plot=True, collision=True))
     S.append(cli_scenario("evo_traj --save_as_tum", "traj",
                           lambda c: ["tum", est(c), est2(c), "--ref", ref(c), "--save_as_tum"]))
     S.append(cli_scenario("evo_traj --save_as_kitti", "traj",
@@ -323,7 +330,17 @@ def k_cell(run, case):
         extra = sorted(set(after) - set(before) - set(OUT))
         run.check(not extra, "no unexpected files are written", case,
                   "%s wrote unexpected files %s" % (label, extra), key="unexpected-files:" + S.name)
-        run.check(nprompts <= len(E), "only existing targets are asked about", case,
+        if S.collision and confirm_on:
+            # the shared target exists when the second output is written, whatever existed before
+            run.check(nprompts >= 1, "a target created earlier in the same run is confirmed before it is replaced", case,
+                      "%s: the second output replaced the file written by the first one without asking" % label,
+                      key="no-prompt:" + S.name)
+            if answer != "y" and not E:
+                kept = all(open(loc(outB, f), "rb").read(2) != b"PK" for f in OUT if os.path.exists(loc(outB, f)))
+                run.check(kept, "a declined second output leaves the first output in place", case,
+                          "%s: the shared target holds the result archive although the overwrite was declined" % label,
+                          key="overwritten-without-y:" + S.name)
+        run.check(nprompts <= len(E) + (1 if S.collision else 0), "only existing targets are asked about", case,
                   "%s asked %d times for %d existing targets" % (label, nprompts, len(E)),
                   key="prompt-count:" + S.name)
         changed = [f for f in E if after.get(f) != before[f]]
@@ -347,7 +364,7 @@ def k_cell(run, case):
             if sorted(changed) != sorted(E) or any(after.get(f) is None for f in E):
                 run.violation("not-replaced-after-y:" + S.name, "%s: after confirming with 'y' the files %s "
                               "were not replaced" % (label, sorted(set(E) - set(changed))), case)
-            if nprompts != len(E):
+            if nprompts != len(E) + (1 if S.collision else 0):
                 run.violation("prompt-count:" + S.name, "%s: %d prompts for %d existing targets" %
                               (label, nprompts, len(E)), case)
             # ordering: no destructive event on an existing target before a 'y' was given
